@@ -14,6 +14,8 @@ CONSTANTS
   MaxRounds = 6
   MaxOps = 18
   EmitAt = 18
+  Jumps = {1, 301, 601, 5000}
+  MaxAdv = 2
 INIT GInit
 NEXT GNext
 CONSTRAINT GConstr
